@@ -15,6 +15,7 @@ from .. import runner
 from ..gen import classes, ctrl, lits, triggers
 from . import c17
 
+PLACEHOLDER_NAMES = {"arrow_function", "function_expression", "anonymous"}
 NEST_MSG = re.compile(r"Function '([^']+)' has excessive nesting depth")
 SRP_MSG = re.compile(r"Class '([^']+)' may violate SRP")
 MAGIC_MSG = re.compile(r"^Magic number (\S+) should be")
@@ -188,14 +189,14 @@ def make_case(rng, idx):
         cmds = [["nesting", "--max-depth", "1"], ["improper-logging"], ["magic-numbers"], ["unwrap-abuse"], ["clone-abuse"]]
     elif kind == 0:  # nesting: header line + quoted name
         for lang in ("py", "ts", "rs"):
-            funcs = [{"name": "fn%d_%s_%d" % (idx, lang, j), "style": rng.choice(["func", "method"] + (["arrow"] if lang == "ts" else [])),
+            funcs = [{"name": "fn%d_%s_%d" % (idx, lang, j), "style": rng.choice(["func", "method"] + (["arrow", "wrapped", "fexpr"] if lang == "ts" else [])),
                       "block": ctrl.no_lone_if_in_else(ctrl.gen_chain(rng, ctrl.kinds_for(lang), rng.randint(2, 6)))} for j in range(rng.randint(1, 4))]
             text, fx = ctrl.render(lang, funcs, indent=rng.choice(["    ", "  "]), gap=rng.randint(0, 3), prefix="c%d" % idx)
             cm = "#" if lang == "py" else "//"
             text, shift = rl(text, None, lead if lang != "py" or True else 0, crlf, nonl, cm)
             f = "pkg/n%d%s" % (idx, ctrl.EXT[lang])
             files[f] = text
-            facts[f] = {"kind": "nesting", "items": {n: fx[n]["line"] + shift for n in fx}}
+            facts[f] = {"kind": "nesting", "items": {n: fx[n]["line"] + shift for n in fx}, "anonymous_lines": sorted(fx[n]["line"] + shift for n in fx if fx[n].get("anonymous"))}
         cmds = [["nesting", "--max-depth", "1"]]
     elif kind == 1:  # magic numbers: literal on the line
         for lang, gen in (("py", lambda: lits.gen_py(rng, rng.randint(8, 25))), ("ts", lambda: lits.gen_ts(rng, rng.randint(8, 20))), ("rs", lambda: lits.gen_rs(rng, rng.randint(8, 20)))):
@@ -327,6 +328,12 @@ def run(ctx):
                     continue
                 if fam == "nesting":
                     m = NEST_MSG.search(msg)
+                    if m and m.group(1) in PLACEHOLDER_NAMES:
+                        # a function without a name of its own is reported under a placeholder: nothing quoted from the source, the line must be the function's
+                        if fx.get("kind") == "nesting" and line not in fx.get("anonymous_lines", []):
+                            ctx.discrepancy("not-header-line:nesting", where + " (anonymous functions start at %s)" % fx.get("anonymous_lines"), rep, files)
+                        ctx.count("construct_checked:nesting")
+                        continue
                     if m and m.group(1) not in text:
                         ctx.discrepancy("name-not-on-line:nesting", where, rep, files)
                     if m and fx.get("kind") == "nesting" and fx["items"].get(m.group(1)) not in (None, line):
